@@ -28,7 +28,7 @@ def ist(mlen, buf, tiers, timeout=400):
 OBLIGATIONS += [ist(2, 2, ["quick", "thorough"]), ist(3, 2, ["thorough"], 1200)]
 
 ASSUMPTIONS = ["codec libraries replaced by one contract model (consume <= avail_in, produce <= avail_out from a backlog, end of stream only when finishing with empty input and backlog, progress when possible)"]
-OUTSIDE = ["the codecs themselves; 'a reference decompressor expands the output' needs the real libraries", "zstd wrapper (uses the buffer-descriptor API; not harnessed yet)"]
+OUTSIDE = ["the codecs themselves; 'a reference decompressor expands the output' needs the real libraries", "the decompressing direction of the codec wrappers beyond what the istream obligations drive"]
 META = dict(
     text="Bounded model checking of the real stream wrappers against contract models of the codec libraries: offsets advance consistently, end-of-stream is reported exactly when "
          "the library reports it, and the progress obligation that makes the finishing flush of the output stream terminate holds for all sizes, modes and library behaviours.",
@@ -36,3 +36,4 @@ META = dict(
     design_ref="DESIGN.md §4 C15",
     technique="CBMC bounded symbolic execution of real xfrm wrappers against nondeterministic library contract stubs, SAT",
 )
+META["text"] += ' Since the first version: the zstd wrapper is covered by the same contract (END exactly when the library ended - this found a truncated-output defect), and codec detection by magic bytes is decided for every buffer of up to 8 bytes.'
